@@ -737,6 +737,25 @@ def _capacity_text(fx, t):
     return cap
 
 
+def _cvectors(t):
+    out, i = [], 0
+    while True:
+        i = t.find("cvector<", i)
+        if i < 0:
+            return out or [t]
+        depth, j = 0, i + len("cvector")
+        while j < len(t):
+            if t[j] == "<":
+                depth += 1
+            elif t[j] == ">":
+                depth -= 1
+                if depth == 0:
+                    break
+            j += 1
+        out.append(t[i:j + 1])
+        i = j
+
+
 def cap_s(chk, fx, only=None):
     """only: restrict the push sites that are judged (by name); the capacity expressions are always compared."""
     chk.rule("CAP-S", "push sites of the fixed-capacity parse stacks", 4 if only is None else len(only))
@@ -750,7 +769,9 @@ def cap_s(chk, fx, only=None):
         for m in r["members"]:
             if m["k"] == "alias" and m["n"] == "type" and "cvector<" in u.T(m["t"]):
                 t = u.T(m["t"])
-                caps.add(_capacity_text(fx, t))
+                # the cvector may be one arm of a std::conditional_t: every cvector<...> inside the alias counts
+                for sub in _cvectors(t):
+                    caps.add(_capacity_text(fx, sub))
     if not caps:
         chk.incomplete("fixed-capacity stack selectors not found")
     if len(caps) != 1:
